@@ -309,6 +309,21 @@ theorem defaultIJ_mem (n : ℕ) (q : ℕ × ℕ) : q ∈ defaultIJ n ↔ q.1 < q
   · rintro ⟨row, hrow, col, hcol, rfl, rfl⟩; exact ⟨hcol, hrow⟩
   · rintro ⟨h1, h2⟩; exact ⟨j, h2, i, h1, rfl, rfl⟩
 
+/-- **C12 analyzer frequency axis.** `GrangerAnalyzer.frequencies[k] = Fs·ω_k/(2π)` for the grid
+`ω_k = π k/n` (`n = n_freqs//2 + 1`) on which `granger_causality_xy` evaluates the spectra (the
+grid without Nyquist, `Generated.FreqResponse.includeNyquist = false`). -/
+theorem analyzer_freq_axis (Fs : ℝ) (n k : ℕ) :
+    (analyzerFreq (Fs : ℂ) n k : ℂ) = ((Fs * gridOmega false k n / (2 * Real.pi) : ℝ) : ℂ) := by
+  simp only [analyzerFreq, sc_mul, sc_div, sc_ofNat, gridOmega]
+  have hpi : (Real.pi : ℂ) ≠ 0 := by exact_mod_cast Real.pi_ne_zero
+  push_cast
+  by_cases hn : (n : ℂ) = 0
+  · simp [hn]
+  · field_simp
+
+/-- the analyzer axis is the spectral grid exactly when `freq_response` does not ask for Nyquist -/
+theorem analyzer_grid_flag : Nitime.Generated.FreqResponse.includeNyquist = false := rfl
+
 /-! ### non-vacuity: `H = I`, `Σ = I` meets every hypothesis -/
 
 example : 0 < axR ⟨1, 0, 0, 1⟩ 1 0 ∧ 0 < ayR ⟨1, 0, 0, 1⟩ 0 1 ∧
